@@ -424,9 +424,14 @@ def r3(ctx):
               f"Plate.merge writes {extra}: merging plates must not alter conditions or observations")
     # merged label comes from one of the two plates
     lab = [n for n in walk_own(m.node) if isinstance(n, ast.Assign) and isinstance(n.targets[0], ast.Subscript)
-           and U(n.targets[0].value) == "self.screen.plate_names"]
+           and unalias(U(n.targets[0].value)) == "self.screen.plate_names"]
     ctx.need(len(lab) == 1, "Plate.merge: plate_names store not found")
-    ctx.check("R3", f"{m.site()}::label", U(lab[0].targets[0].slice) == "self.selection_vector" and U(lab[0].value) in ("self.plate_name", "other.plate_name"),
+    full_env = single_defs(m.node)
+    rows = U(lab[0].targets[0].slice)
+    sv_store = [n for n in walk_own(m.node) if isinstance(n, ast.Assign) and U(n.targets[0]) == "self.selection_vector"]
+    rows_ok = rows == "self.selection_vector" or (len(sv_store) == 1 and rows == U(sv_store[0].value) and rows.isidentifier() and rows in full_env)
+    label = U(inline(lab[0].value, {k: v for k, v in full_env.items() if common.is_path(v)}))
+    ctx.check("R3", f"{m.site()}::label", rows_ok and label in ("self.plate_name", "other.plate_name"),
               "relabels exactly the merged rows with an existing plate label",
               f"relabels rows `{U(lab[0].targets[0].slice)}` with `{U(lab[0].value)}`")
 
